@@ -39,6 +39,9 @@ func NewQueue[T any]() *Queue[T] {
 
 // Len returns the total number of items in the queue
 func (q *Queue[T]) Len() int {
+	q.mx.RLock()
+	defer q.mx.RUnlock()
+
 	writeCount := q.writeCount.Load()
 	readCount := q.readCount.Load()
 
